@@ -76,6 +76,7 @@ func (s *sim) onTick() {
 	d := s.during
 	s.during = nil
 	s.inCall = false // env steps may tick themselves
+	s.frameSnap("pause", "during") // C18: the simulation bracket is suspended while the environment moves
 	for _, st := range d {
 		if err := s.step(st); err != nil {
 			s.w.Emit(trace.M{"e": "Note", "what": "during-error", "kind": "-", "name": "-", "msg": err.Error()})
@@ -83,6 +84,7 @@ func (s *sim) onTick() {
 	}
 	s.inCall = true
 	s.snapshot("during")
+	s.frameSnap("resume", "during")
 }
 
 func (s *sim) runCandidates(method string) error {
@@ -124,11 +126,12 @@ func (s *sim) runMethod(method string, during []Step) error {
 		return err
 	}
 	s.snapshot("pre-method")
+	s.frameSnap("pre", frameCall(method))
 	s.w.Emit(trace.M{"e": "Begin", "controller": "disruption.method", "object": method})
 	var cmds []kdisruption.Command
 	var budgets map[string]int
 	errS, panicked := s.guarded(during, func() error {
-		ctx := s.dctx()
+		ctx := s.frameCtx(s.dctx()) // C18: Method{value:"cancelled"|"deadline", d:k} runs the method under an expiring context
 		cs, totals, e := kdisruption.GetCandidatesWithTotals(ctx, s.cluster, s.w.Client, s.w.Rec, s.w.Clock, s.w.Prov, m.ShouldDisrupt, m.Class(), s.queue, s.cost)
 		s.w.Emit(trace.M{"e": "Cands", "mode": "method", "method": method, "class": m.Class(), "names": candNames(cs)})
 		if e != nil || len(cs) == 0 {
@@ -146,9 +149,13 @@ func (s *sim) runMethod(method string, during []Step) error {
 			b[k] = v
 		}
 		s.w.Emit(trace.M{"e": "Budget", "method": method, "reason": string(m.Reason()), "allowed": b})
+		s.frameSetCands(cs)
+		s.frameSnap("rebase", frameCall(method)) // C18: from here on the candidates (and their pods) are part of the frame
 		cmds, e = m.ComputeCommands(ctx, budgets, cs...)
 		return e
 	})
+	s.frameSnap("post", frameCall(method))
+	s.frameSetCands(nil)
 	for i := range cmds {
 		if cmds[i].Decision() == kdisruption.NoOpDecision {
 			continue
@@ -242,6 +249,7 @@ func (s *sim) step(st Step) error {
 		}
 		defer w.ClearFaults()
 	}
+	s.frame().mode, s.frame().polls = st.Value, st.D // C18 (x_frame.go): context mode of a Method step
 	switch st.A {
 	case "Method":
 		return s.runMethod(st.Method, st.During)
@@ -374,6 +382,10 @@ func (s *sim) step(st Step) error {
 		s.deliver("NodeClaim", claimName(n), "")
 	case "Snapshot":
 		s.snapshot("step")
+	case "Simulate": // C18 (x_frame.go)
+		return s.runSimulate(st)
+	case "Pass": // C18 (x_frame.go)
+		return s.runPass()
 	default:
 		return fmt.Errorf("unknown step %q", st.A)
 	}
@@ -407,6 +419,7 @@ func RunOne(sc *Scenario, tw *trace.Writer) (err error) {
 	}
 	defer func() {
 		delete(bufferCounts, s)
+		delete(frameState, s)
 		if r := recover(); r != nil {
 			err = fmt.Errorf("scenario %s: panic in driver: %v", sc.Name, r)
 		}
